@@ -123,6 +123,18 @@ fn user_value(family: &str, tag: &str) -> Vec<(String, Val)> {
     }
 }
 
+fn fam_fmt(family: &str) -> &'static str {
+    match family {
+        "number" => " number",
+        "currency" => " currency(width: narrow; currency_code: EUR)",
+        "date" => " date(date_length: long)",
+        "time" => " time",
+        "datetime" => " datetime",
+        "list" => " list(list_type: and)",
+        _ => unreachable!(),
+    }
+}
+
 fn rename(entries: Vec<(String, Val)>, name: &str) -> Vec<(String, Val)> {
     entries.into_iter().map(|(k, v)| (k.replacen('K', name, 1), v)).collect()
 }
@@ -285,6 +297,9 @@ fn c20(tier: Tier) -> i32 {
         namespaced: bool,
         locales: Vec<&'static str>,
         default: &'static str,
+        /// formatter families all attached to ONE variable of ONE key, and how they are spread over the locales
+        co: Vec<&'static str>,
+        co_variant: u8,
     }
     let mut jobs: Vec<Job> = vec![];
     let locale_sets: Vec<(Vec<&'static str>, &'static str)> = vec![(vec!["en", "fr"], "en"), (vec!["fr", "en"], "en"), (vec!["fr"], "en"), (vec!["en", "fr", "sr-Cyrl", "zh-Hant-TW"], "en")];
@@ -295,7 +310,7 @@ fn c20(tier: Tier) -> i32 {
                     continue;
                 }
                 for (ls, d) in &locale_sets {
-                    jobs.push(Job { uses: vec![(fam, pl)], namespaced, locales: ls.clone(), default: d });
+                    jobs.push(Job { uses: vec![(fam, pl)], namespaced, locales: ls.clone(), default: d, co: vec![], co_variant: 0 });
                 }
             }
         }
@@ -308,7 +323,29 @@ fn c20(tier: Tier) -> i32 {
                     if tier == Tier::Quick && (p1.len() + p2.len() + f1.len() * 3 + f2.len()) % 4 != 0 {
                         continue;
                     }
-                    jobs.push(Job { uses: vec![(f1, p1), (f2, p2)], namespaced: true, locales: vec!["en", "fr"], default: "en" });
+                    jobs.push(Job { uses: vec![(f1, p1), (f2, p2)], namespaced: true, locales: vec!["en", "fr"], default: "en", co: vec![], co_variant: 0 });
+                }
+            }
+        }
+    }
+    // one variable carrying formatters of several families: every ordered choice of 1..=3 (thorough: every
+    // permutation of every subset) of the 6 formatter families x 4 ways of spreading them over the locales
+    {
+        let fams: Vec<&'static str> = FAMILIES.iter().copied().filter(|f| *f != "plural").collect();
+        let mut seqs: Vec<Vec<&'static str>> = vec![];
+        for mask in vmodel::enumerate::subsets(fams.len()) {
+            let members: Vec<&'static str> = (0..fams.len()).filter(|i| mask >> i & 1 == 1).map(|i| fams[i]).collect();
+            if members.is_empty() || (tier == Tier::Quick && members.len() > 3) || members.len() > 4 {
+                continue;
+            }
+            for perm in vmodel::enumerate::permutations(members.len()) {
+                seqs.push(perm.iter().map(|i| members[*i]).collect());
+            }
+        }
+        for co in seqs {
+            for co_variant in 0..4u8 {
+                for namespaced in [false, true] {
+                    jobs.push(Job { uses: vec![("plural", if co_variant % 2 == 0 { "none" } else { "subkey-depth2" })], namespaced, locales: vec!["en", "fr"], default: "en", co: co.clone(), co_variant });
                 }
             }
         }
@@ -326,6 +363,31 @@ fn c20(tier: Tier) -> i32 {
         for (k, (fam, pl)) in j.uses.iter().enumerate() {
             place(&mut files, fam, pl, &format!("u{k}"), j.namespaced);
         }
+        if !j.co.is_empty() {
+            let ns = if j.namespaced { Some("two".to_string()) } else { None };
+            let all: Vec<Seg> = j.co.iter().map(|f| var_fmt("v", fam_fmt(f))).collect();
+            let with_text = |mut v: Vec<Seg>, t: &str| {
+                v.insert(0, text(t));
+                v
+            };
+            let (en, fr): (Val, Val) = match j.co_variant {
+                // all in the default locale's string
+                0 => (s(with_text(all.clone(), "[en] ")), st("[fr] plain")),
+                // first in the default locale, the others in the other locale
+                1 => (s(with_text(all[..1].to_vec(), "[en] ")), if all.len() > 1 { s(with_text(all[1..].to_vec(), "[fr] ")) } else { Val::Null }),
+                // all in the non-default locale, the default shows the variable plainly
+                2 => (s(vec![text("[en] "), var("v")]), s(with_text(all.clone(), "[fr] "))),
+                // inside a subkey; the last one only in the non-default locale
+                _ => (s(with_text(all[..all.len() - 1].to_vec(), "[en] ")), s(with_text(all[all.len() - 1..].to_vec(), "[fr] "))),
+            };
+            if j.co_variant == 3 {
+                files.entry((ns.clone(), "en".to_string())).or_default().push(("cog".into(), Val::Sub(vec![("co".into(), en)])));
+                files.entry((ns.clone(), "fr".to_string())).or_default().push(("cog".into(), Val::Sub(vec![("co".into(), fr)])));
+            } else {
+                files.entry((ns.clone(), "en".to_string())).or_default().push(("co".into(), en));
+                files.entry((ns.clone(), "fr".to_string())).or_default().push(("co".into(), fr));
+            }
+        }
         // every (namespace, locale) file exists; locales beyond en/fr mirror fr
         let nss: Vec<Option<String>> = if j.namespaced { vec![Some("one".into()), Some("two".into())] } else { vec![None] };
         for ns in &nss {
@@ -341,7 +403,7 @@ fn c20(tier: Tier) -> i32 {
         let dir = root.join(format!("w{w}"));
         p.materialise(&dir, JSON).unwrap();
         rep.eval(1);
-        let desc = || format!("uses {:?} namespaced={} locales {:?} default {}", j.uses, j.namespaced, j.locales, j.default);
+        let desc = || format!("uses {:?} same-variable formatters {:?} (spread {}) namespaced={} locales {:?} default {}", j.uses, j.co, j.co_variant, j.namespaced, j.locales, j.default);
         match observe(&dir, None) {
             Out::Panic(msg) => rep.violation(format!("C20: PANIC {msg} :: {}", desc()), json!({"project": p.describe()})),
             Out::Err(e) => rep.violation(format!("C20: valid project rejected by the build helper: {e} :: {}", desc()), json!({"project": p.describe()})),
@@ -379,7 +441,7 @@ fn c20(tier: Tier) -> i32 {
     rep.sample(json!({"uses": [["currency", "fk-target"]], "namespaced": true}));
     rep.sample(json!({"uses": [["plural", "surplus-only"], ["list", "range-branch"]], "expect": "list data only"}));
     let mut cov = serde_json::Map::new();
-    cov.insert("rule".into(), json!(format!("families {FAMILIES:?} x placements {PLACEMENTS:?} (none; default locale top level; non-default locale only; subkey depth 2 with the other locale null; inside a range branch; inside a plural form; only as the target of a foreign key from another key/namespace; second namespace only; only in a surplus key the default locale lacks = unreachable): every single placement x namespaced or not x 4 locale sets (default first / last / unlisted, script+region names), and pairs of (family, placement) (quick: a quarter, thorough: all); oracle: characteristic data key of a family (plurals/cardinal@1, list/and@1, datetime/timesymbols@1, currency/essentials@1, decimal/symbols@1 for number-or-datetime) requested iff a reachable key uses the family in some locale (model: union over locales of the resolved trees of the default locale's keys); get_locales / get_locales_langids == configured set, get_namespaces == configured list, files_paths complete; distinct_nontrivial = distinct used-family sets")));
+    cov.insert("rule".into(), json!(format!("families {FAMILIES:?} x placements {PLACEMENTS:?} (none; default locale top level; non-default locale only; subkey depth 2 with the other locale null; inside a range branch; inside a plural form; only as the target of a foreign key from another key/namespace; second namespace only; only in a surplus key the default locale lacks = unreachable): every single placement x namespaced or not x 4 locale sets (default first / last / unlisted, script+region names), and pairs of (family, placement) (quick: a quarter, thorough: all); plus ONE variable of one key carrying formatters of several families: every permutation of every subset of <= 3 (thorough 4) of the 6 formatter families x 4 spreads over the locales (all in the default's string; first in the default, rest in the other locale; all in the other locale with the variable plain in the default; inside a subkey with the last only in the other locale) x namespaced or not; oracle: characteristic data key of a family (plurals/cardinal@1, list/and@1, datetime/timesymbols@1, currency/essentials@1, decimal/symbols@1 for number-or-datetime) requested iff a reachable key uses the family in some locale (model: union over locales of the resolved trees of the default locale's keys); get_locales / get_locales_langids == configured set, get_namespaces == configured list, files_paths complete; distinct_nontrivial = distinct used-family sets")));
     cov.insert("exhaustive".into(), json!(tier == Tier::Thorough));
     cov.insert("used_family_sets".into(), json!(*classes.lock().unwrap()));
     let _ = std::fs::remove_dir_all(&root);
